@@ -73,6 +73,29 @@ def library_panic(stdout):
     return None
 
 
+def library_stall(stdout):
+    """The harness watchdog (exit 3) dumps all goroutines when no case has started for a while.  If the dump shows the
+    driver waiting for quiescence (synctest.Wait) while a goroutine is inside the library waiting for a mutex, or running
+    (spinning) there, the library has stopped making progress: returns (kind, function), else None."""
+    if "WATCHDOG: no progress" not in stdout:
+        return None
+    dump = stdout[stdout.index("WATCHDOG: no progress"):]
+    if "synctest.Wait" not in dump:
+        return None
+    for g in dump.split("\n\n"):
+        head = g.split("\n", 1)[0]
+        lock = "sync.(*Mutex).Lock" in g or "sync.(*RWMutex)" in g
+        spin = "[running" in head or "[runnable" in head
+        if not (lock or spin) or "runtime.Stack" in g:
+            continue
+        for fm in re.finditer(r"^github\.com/rminnich/go9p\.([^\s(]*(?:\([^)]*\))?[^\s(]*)\(", g, re.M):
+            fn = fm.group(1)
+            if fn.startswith("Verif"):
+                continue
+            return ("lock-wait" if lock else "spin"), fn
+    return None
+
+
 def engine(ctx, test, env=None, timeout=900, name=None, what="healthy connection"):
     """Run a harness engine; a process crash caused by a panic inside the library is a violation
     (the calls in flight never return), any other death is inconclusive."""
@@ -84,6 +107,12 @@ def engine(ctx, test, env=None, timeout=900, name=None, what="healthy connection
             pm = re.search(r"panic: ([^\n]*)", out)
             ctx.violation("panic:%s" % fn, "engine %s (%s): the client panics in %s: %s" % (
                 name or test, what, fn, pm.group(1)[:160] if pm else ""), {"engine": test, "env": env or {}})
+        elif library_stall(out):
+            kind, sfn = library_stall(out)
+            ctx.violation("hang:library-%s:%s" % (kind, sfn), "engine %s (%s): the client stopped making progress: a goroutine is %s in %s "
+                          "(goroutine dump of the harness watchdog); the calls in flight never return" % (
+                              name or test, what, "waiting for a lock for ever" if kind == "lock-wait" else "spinning", sfn),
+                          {"engine": test, "env": env or {}})
         else:
             ctx.log("engine output tail:\n" + "\n".join(out.splitlines()[-40:]))
             ctx.inconclusive.append("engine %s exited %s without a complete report" % (name or test, rep.get("_exit")))
